@@ -67,16 +67,17 @@ def validate(ctx, cases, tag, width=64, jobs=16, module="TshRun", timeout=2400, 
     return res
 
 
-SPELLINGS = ("brackets", "lean", "var")
-SPELL_PROPS = ("C01", "C02", "C03", "C04")      # properties without known findings matched by case id
+SPELLINGS = ("brackets", "lean", "var", "airy")      # airy: blank and comment lines behind every { and in front of every } / case
+SPELL_PROPS = ("C01", "C02", "C03", "C04", "C06", "C07", "C17", "C18")
 SPELL_SHARE = {"quick": 5, "thorough": 2}
+SPELL_SHARE_STATIC = {"quick": 2, "thorough": 1}    # verdict-only runs are cheap
 
 
 def respelled(ctx, cases):
     """A sample of the cases once more, each written in another legal spelling (harness/respell.go): redundant brackets, no blanks /
     no optional brackets, `var x = v` for `x := v`.  The specification runs the same program, so the expectation is the same.
     Every case of the sample gets ONE spelling, chosen by a digest of its id; the share is a property of the tier."""
-    share = getattr(ctx, "spell_share", 0) or (SPELL_SHARE.get(ctx.tier, 0) if ctx.prop in SPELL_PROPS else 0)
+    share = getattr(ctx, "spell_share", 0) or ((SPELL_SHARE_STATIC if ctx.prop in ("C06", "C07") else SPELL_SHARE).get(ctx.tier, 0) if ctx.prop in SPELL_PROPS else 0)
     if not share:
         return []
     import hashlib
